@@ -231,6 +231,16 @@ fn validate_item(it: &nucleo::Item<'_, Payload>, prop: &str, what: &str) -> (u32
     (it.data.uid, it.data.stream)
 }
 
+/// The documented composition of a multi-column pattern, computed column by column (independent
+/// of `MultiPattern::score`): every column pattern must match its own column, scores add up.
+fn reference_score(p: &MultiPattern, cols: &[Utf32String], m: &mut Matcher) -> Option<u32> {
+    let mut total = 0u32;
+    for (i, c) in cols.iter().enumerate() {
+        total += p.column_pattern(i).score(c.slice(..), m)?;
+    }
+    Some(total)
+}
+
 fn total_len(cols: &[Utf32String]) -> u32 {
     cols.iter().map(|c| c.len() as u32).sum()
 }
@@ -342,7 +352,7 @@ impl<'a> Ui<'a> {
                 soft("C06", "duplicate", format!("{what}: index {} (uid {uid}) appears twice in the matches", m.idx));
             }
             // clause 3
-            let sc = s.pattern().score(it.matcher_columns, &mut self.refm);
+            let sc = reference_score(s.pattern(), it.matcher_columns, &mut self.refm);
             if sc != Some(m.score) {
                 soft(
                     "C06",
@@ -421,7 +431,7 @@ impl<'a> Ui<'a> {
                         break;
                     }
                     init += 1;
-                    if !seen.contains(&i) && s.pattern().score(it.matcher_columns, &mut self.refm).is_some() {
+                    if !seen.contains(&i) && reference_score(s.pattern(), it.matcher_columns, &mut self.refm).is_some() {
                         missing += 1;
                     }
                 }
@@ -635,7 +645,7 @@ impl<'a> Ui<'a> {
         }
         let mut want: Vec<(u32, u32, u32)> = items
             .iter()
-            .filter_map(|(i, it)| fresh.score(it.matcher_columns, &mut self.refm).map(|s| (s, total_len(it.matcher_columns), *i)))
+            .filter_map(|(i, it)| reference_score(&fresh, it.matcher_columns, &mut self.refm).map(|s| (s, total_len(it.matcher_columns), *i)))
             .collect();
         if !fresh.is_empty() {
             want.sort_by(|a, b| b.0.cmp(&a.0).then(a.1.cmp(&b.1)).then(a.2.cmp(&b.2)));
